@@ -4,6 +4,7 @@ package main
 import (
 	"bufio"
 	"bytes"
+	"context"
 	"encoding/json"
 	"flag"
 	"fmt"
@@ -210,7 +211,10 @@ func runC07(tier string) int {
 				left = time.Second
 			}
 			t0 := time.Now()
-			cmd := exec.Command(os.Args[0], "-prop", "C07", "-tier", tier)
+			// a worker that does not come back (it honours the budget itself) is killed a minute after its deadline
+			ctx, cancel := context.WithTimeout(context.Background(), left+time.Minute)
+			defer cancel()
+			cmd := exec.CommandContext(ctx, os.Args[0], "-prop", "C07", "-tier", tier)
 			cmd.Env = append(os.Environ(), "VERIF_C07_SHARD="+c.pol+"/"+c.fam, "VERIF_BUDGET="+left.String())
 			var errb bytes.Buffer
 			cmd.Stderr = &errb
@@ -238,6 +242,12 @@ func runC07(tier string) int {
 						mu.Unlock()
 					}
 				}
+			}
+			if ctx.Err() != nil {
+				// no verdict from this cell: reported as not completed, never as a violation
+				fmt.Printf("[C07] worker %s/%s did not finish within its budget + 60 s and was stopped\n", c.pol, c.fam)
+				c.complete = false
+				return
 			}
 			if err != nil || !got {
 				tail := errb.String()
